@@ -239,7 +239,7 @@ fn cmd_check(args: &[String]) {
         // bounds for the variations scale with what the reference run needed
         let ref_wall_s = ref_wall_ms as f64 / 1000.0;
         let max_steps = exec::MAX_STEPS.max(reference.steps * 50);
-        let cpu_limit = child::CPU_LIMIT_S.max((ref_wall_s * 60.0).ceil() as u64);
+        let cpu_limit = child::CPU_LIMIT_S.max((ref_wall_s * 100.0).ceil() as u64);
         for mut v in workload::variations(&g, &reference) {
             v.max_steps = Some(max_steps);
             v.cpu_limit_s = Some(cpu_limit);
